@@ -24,6 +24,13 @@ Fixpoint lookup {P} (i : N) (bits : list (N * list P)) : list P :=
   | (j, w) :: bits' => if (j =? i)%N then w else lookup i bits'
   end.
 
+(* the pins of ALL nets given for bit i, in file order (a bit may be given by several nets) *)
+Fixpoint gather {P} (i : N) (bits : list (N * list P)) : list P :=
+  match bits with
+  | [] => []
+  | (j, w) :: bits' => if (j =? i)%N then w ++ gather i bits' else gather i bits'
+  end.
+
 (* ------------------------------------------------------------------------------------------ *)
 (* min / max                                                                                   *)
 
@@ -153,6 +160,29 @@ Proof.
     intros Hin. apply Hnot. eapply Permutation_in; [|exact Hin].
     apply Permutation_sym. apply Permutation_map. exact Hp.
 Qed.
+
+Lemma gather_notin i bits : ~ In i (idxs bits) -> gather i bits = [].
+Proof.
+  induction bits as [|[j w] t IH]; simpl; intros H; [reflexivity|].
+  destruct (N.eqb_spec j i); [exfalso; auto|]. apply IH. auto.
+Qed.
+
+(* when every bit is given once, gather is lookup *)
+Lemma gather_lookup i bits : NoDup (idxs bits) -> gather i bits = lookup i bits.
+Proof.
+  induction bits as [|[j w] t IH]; simpl; intros Hnd; [reflexivity|].
+  inversion Hnd as [|? ? Hnot Hnd']; subst.
+  destruct (N.eqb_spec j i) as [->|Hne]; [|auto].
+  rewrite gather_notin by exact Hnot. apply app_nil_r.
+Qed.
+
+Lemma gather_snoc k i w pre :
+  gather k (pre ++ [(i, w)]) = if (k =? i)%N then gather k pre ++ w else gather k pre.
+Proof.
+  induction pre as [|[j v] t IH]; simpl.
+  - rewrite (N.eqb_sym i k). destruct (k =? i)%N; [apply app_nil_r|reflexivity].
+  - rewrite IH. destruct (j =? k)%N; destruct (k =? i)%N; try reflexivity. apply app_assoc.
+Qed.
 End Lookup.
 
 (* ------------------------------------------------------------------------------------------ *)
@@ -195,26 +225,24 @@ Section Merge.
 Context {P : Type}.
 Implicit Types c : cab P.
 
-(* the wire of every bit after one merge: only bit [index] changes, provided the new index is
-   not the current lower index and its position (if inside the range) is still a gap *)
+(* the wire of every bit after one merge: only bit [index] changes - the pins of the new net are
+   added to whatever that bit holds already (nothing, when the position is a gap or outside) *)
 Lemma mb_merge_wire c i w k :
-  i <> c_lower c -> wire_of c i = [] ->
-  wire_of (mb_merge c i w) k = if (k =? i)%N then w else wire_of c k.
+  wire_of (mb_merge c i w) k = if (k =? i)%N then wire_of c i ++ w else wire_of c k.
 Proof.
   destruct c as [lo a ws]. unfold mb_merge, wire_of. cbn [c_lower c_wires c_array].
-  intros Hne Hi.
-  destruct (N.ltb_spec lo i) as [Hlt|Hge].
+  destruct (N.leb_spec lo i) as [Hle|Hgt].
   - destruct (N.ltb_spec i lo) as [|_]; [lia|].
     destruct (N.ltb_spec i (lo + N.of_nat (length ws))) as [Hin|Hout];
       cbn [c_lower c_wires c_array].
-    + (* inside the range: the position is a gap *)
-      rewrite Hi. cbn [app].
+    + (* inside the range *)
       destruct (N.ltb_spec k lo) as [Hk|Hk].
       * destruct (N.eqb_spec k i); [lia|reflexivity].
       * rewrite nth_replace by lia.
         destruct (Nat.eqb_spec (N.to_nat (k - lo)) (N.to_nat (i - lo))) as [E|E];
           destruct (N.eqb_spec k i); try reflexivity; lia.
     + (* above the range: fill, then append *)
+      rewrite (nth_overflow ws (n := N.to_nat (i - lo))) by lia. cbn [app].
       destruct (N.ltb_spec k lo) as [Hk|Hk].
       * destruct (N.eqb_spec k i); [lia|reflexivity].
       * destruct (Nat.lt_ge_cases (N.to_nat (k - lo)) (length ws)) as [Hl|Hl].
@@ -232,6 +260,7 @@ Proof.
               ** apply nth_overflow. simpl. lia.
   - (* below the range: prepend, fill *)
     assert (Hlt : (i < lo)%N) by lia. cbn [c_lower c_wires c_array].
+    destruct (N.ltb_spec i lo) as [_|]; [|lia]. cbn [app].
     destruct (N.ltb_spec k i) as [Hk|Hk].
     + destruct (N.eqb_spec k i); [lia|].
       destruct (N.ltb_spec k lo); [reflexivity|lia].
@@ -247,22 +276,22 @@ Qed.
 
 Lemma mb_merge_array c i w : c_array (mb_merge c i w) = c_array c.
 Proof.
-  unfold mb_merge. destruct (_ <? _)%N; [destruct (_ <? _)%N|]; reflexivity.
+  unfold mb_merge. destruct (_ <=? _)%N; [destruct (_ <? _)%N|]; reflexivity.
 Qed.
 
-(* lower index and length after one merge (len >= 1, index distinct from the lower index) *)
+(* lower index and length after one merge (len >= 1) *)
 Lemma mb_merge_bounds c i w :
   let lo := c_lower c in
   let len := N.of_nat (length (c_wires c)) in
   let c' := mb_merge c i w in
   let lo' := c_lower c' in
   let len' := N.of_nat (length (c_wires c')) in
-  (1 <= len)%N -> i <> lo ->
-  lo' = N.min lo i /\ (lo' + len' - 1 = N.max (lo + len - 1) i)%N.
+  (1 <= len)%N ->
+  lo' = N.min lo i /\ (lo' + len' - 1 = N.max (lo + len - 1) i)%N /\ (1 <= len')%N.
 Proof.
   destruct c as [lo a ws]. unfold mb_merge. cbn [c_lower c_wires c_array]. cbv zeta.
-  intros Hlen Hne.
-  destruct (N.ltb_spec lo i) as [Hlt|Hge].
+  intros Hlen.
+  destruct (N.leb_spec lo i) as [Hlt|Hge].
   - destruct (N.ltb_spec i (lo + N.of_nat (length ws))) as [Hin|Hout];
       cbn [c_lower c_wires c_array].
     + rewrite length_replace by lia. lia.
@@ -284,7 +313,7 @@ Definition cab_inv c pre : Prop :=
   In (c_lower c + N.of_nat (length (c_wires c)) - 1)%N (idxs pre) /\
   (forall j, In j (idxs pre) ->
      (c_lower c <= j < c_lower c + N.of_nat (length (c_wires c)))%N) /\
-  (forall k, wire_of c k = lookup k pre).
+  (forall k, wire_of c k = gather k pre).
 
 Lemma idxs_app pre rest : idxs (pre ++ rest) = idxs pre ++ idxs rest.
 Proof. apply map_app. Qed.
@@ -294,21 +323,19 @@ Proof.
   unfold cab_inv. cbn [c_lower c_array c_wires idxs map fst length].
   split; [reflexivity|]. split; [left; reflexivity|]. split; [left; lia|]. split.
   - intros j [<-|[]]. lia.
-  - intros k. unfold wire_of. cbn [c_lower c_wires lookup].
+  - intros k. unfold wire_of. cbn [c_lower c_wires gather].
     destruct (N.ltb_spec k i) as [Hk|Hk]; destruct (N.eqb_spec i k) as [->|Hne]; try lia.
     + reflexivity.
-    + rewrite N.sub_diag. reflexivity.
+    + rewrite N.sub_diag, app_nil_r. reflexivity.
     + apply nth_overflow. simpl. lia.
 Qed.
 
 Lemma cab_inv_step c pre i w :
-  cab_inv c pre -> ~ In i (idxs pre) -> cab_inv (mb_merge c i w) (pre ++ [(i, w)]).
+  cab_inv c pre -> cab_inv (mb_merge c i w) (pre ++ [(i, w)]).
 Proof.
-  intros (Harr & Hlo & Hhi & Hrng & Hw) Hnot.
+  intros (Harr & Hlo & Hhi & Hrng & Hw).
   assert (Hlen : (1 <= N.of_nat (length (c_wires c)))%N) by (specialize (Hrng _ Hlo); lia).
-  assert (Hne : i <> c_lower c) by (intros ->; auto).
-  assert (Hgap : wire_of c i = []) by (rewrite Hw; apply lookup_notin; exact Hnot).
-  destruct (mb_merge_bounds c i w Hlen Hne) as (Elo & Ehi).
+  destruct (mb_merge_bounds c i w Hlen) as (Elo & Ehi & Hlen').
   unfold cab_inv. rewrite mb_merge_array, idxs_app. cbn [idxs map fst].
   split; [exact Harr|]. split; [|split; [|split]].
   - rewrite Elo. apply in_or_app.
@@ -320,30 +347,24 @@ Proof.
     assert (Hj' : (c_lower c <= j < c_lower c + N.of_nat (length (c_wires c)))%N \/ j = i).
     { destruct Hj as [Hj|[<-|[]]]; [left; auto|right; reflexivity]. }
     lia.
-  - intros k. rewrite (mb_merge_wire c i w k Hne Hgap), lookup_snoc by exact Hnot.
-    rewrite Hw. reflexivity.
+  - intros k. rewrite (mb_merge_wire c i w k), gather_snoc, !Hw.
+    destruct (N.eqb_spec k i) as [->|]; reflexivity.
 Qed.
 
 Lemma assemble_from_inv rest : forall c pre,
-  cab_inv c pre -> NoDup (idxs (pre ++ rest)) ->
-  cab_inv (assemble_from c rest) (pre ++ rest).
+  cab_inv c pre -> cab_inv (assemble_from c rest) (pre ++ rest).
 Proof.
-  induction rest as [|[i w] rest IH]; intros c pre Hinv Hnd; simpl.
+  induction rest as [|[i w] rest IH]; intros c pre Hinv; simpl.
   - rewrite app_nil_r. exact Hinv.
-  - assert (Hnot : ~ In i (idxs pre)).
-    { rewrite idxs_app in Hnd. cbn [idxs map fst] in Hnd. apply NoDup_remove_2 in Hnd.
-      intros H. apply Hnd. apply in_or_app. left. exact H. }
-    replace (pre ++ (i, w) :: rest) with ((pre ++ [(i, w)]) ++ rest) in *
+  - replace (pre ++ (i, w) :: rest) with ((pre ++ [(i, w)]) ++ rest)
       by (rewrite <- app_assoc; reflexivity).
-    apply IH; [|exact Hnd].
-    apply cab_inv_step; [exact Hinv|exact Hnot].
+    apply IH. apply cab_inv_step. exact Hinv.
 Qed.
 
-Lemma assemble_inv bits c :
-  NoDup (idxs bits) -> assemble bits = Some c -> cab_inv c bits.
+Lemma assemble_inv bits c : assemble bits = Some c -> cab_inv c bits.
 Proof.
-  destruct bits as [|[i w] rest]; simpl; intros Hnd H; [discriminate|].
-  inversion H; subst. apply (assemble_from_inv rest _ [(i, w)]); [apply cab_inv_init|exact Hnd].
+  destruct bits as [|[i w] rest]; simpl; intros H; [discriminate|].
+  inversion H; subst. apply (assemble_from_inv rest _ [(i, w)]). apply cab_inv_init.
 Qed.
 End Assemble.
 
@@ -370,6 +391,25 @@ Qed.
 (* ------------------------------------------------------------------------------------------ *)
 (* 1. The assembled cable                                                                      *)
 
+(* ANY list of bits, a bit may be given by several nets: bit i holds the pins of all its nets *)
+Theorem multibit_assemble_all : forall P (bits : list (N * list P)) c,
+  assemble bits = Some c ->
+     c_lower c = min_idx (idxs bits)
+  /\ N.of_nat (length (c_wires c)) = (max_idx (idxs bits) - min_idx (idxs bits) + 1)%N
+  /\ c_array c = true
+  /\ forall i, wire_of c i = gather i bits.
+Proof.
+  intros P bits c Hasm.
+  destruct (assemble_inv bits c Hasm) as (Harr & Hlo & Hhi & Hrng & Hw).
+  assert (Emin : min_idx (idxs bits) = c_lower c).
+  { apply min_idx_unique; [exact Hlo|]. intros j Hj. apply Hrng in Hj. lia. }
+  assert (Emax : max_idx (idxs bits) = (c_lower c + N.of_nat (length (c_wires c)) - 1)%N).
+  { apply max_idx_unique; [exact Hhi|]. intros j Hj. apply Hrng in Hj. lia. }
+  assert (Hlen := Hrng _ Hlo).
+  rewrite Emin, Emax. split; [reflexivity|]. split; [lia|]. split; [exact Harr|exact Hw].
+Qed.
+
+(* every bit given once: bit i holds the pins of its net *)
 Theorem multibit_assemble : forall P (bits : list (N * list P)) c,
   NoDup (idxs bits) -> assemble bits = Some c ->
      c_lower c = min_idx (idxs bits)
@@ -378,13 +418,8 @@ Theorem multibit_assemble : forall P (bits : list (N * list P)) c,
   /\ forall i, wire_of c i = lookup i bits.
 Proof.
   intros P bits c Hnd Hasm.
-  destruct (assemble_inv bits c Hnd Hasm) as (Harr & Hlo & Hhi & Hrng & Hw).
-  assert (Emin : min_idx (idxs bits) = c_lower c).
-  { apply min_idx_unique; [exact Hlo|]. intros j Hj. apply Hrng in Hj. lia. }
-  assert (Emax : max_idx (idxs bits) = (c_lower c + N.of_nat (length (c_wires c)) - 1)%N).
-  { apply max_idx_unique; [exact Hhi|]. intros j Hj. apply Hrng in Hj. lia. }
-  assert (Hlen := Hrng _ Hlo).
-  rewrite Emin, Emax. split; [reflexivity|]. split; [lia|]. split; [exact Harr|exact Hw].
+  destruct (multibit_assemble_all P bits c Hasm) as (H1 & H2 & H3 & Hw).
+  repeat split; auto. intro i. rewrite Hw. apply gather_lookup. exact Hnd.
 Qed.
 
 Theorem assemble_nonempty : forall P bits, bits <> [] -> exists c, @assemble P bits = Some c.
@@ -467,23 +502,21 @@ Proof.
 Qed.
 
 (* ------------------------------------------------------------------------------------------ *)
-(* 4. Why NoDup is needed: a second net with the index of the current lower bit is PREPENDED   *)
-(*    (parser.py:1051 "else" also covers index == lower_index; create_wires(-1) adds nothing), *)
-(*    so every wire assembled so far moves up by one position.                                 *)
+(* 4. A bit given twice (repaired K11; seen on bundled float_demo.edf): the second net for    *)
+(*    bit 2 - the current lower index - joins wire 0; nothing moves, the width stays 2.       *)
+(*    Before the repair the wire was PREPENDED: [[12]; [10]; [11]], every bit shifted by one. *)
 
-Example multibit_duplicate_lower_shifts :
+Example multibit_duplicate_lower_joins :
   let bits := [(2%N, [10]); (3%N, [11]); (2%N, [12])] in
-     assemble bits = Some (mkcab 2%N true [[12]; [10]; [11]])
+     assemble bits = Some (mkcab 2%N true [[10; 12]; [11]])
   /\ (forall c, assemble bits = Some c ->
-        wire_of c 3 = [10]                       (* bit 3 now reads the first net of bit 2 *)
-     /\ wire_of c 3 <> lookup 3%N bits            (* ... not its own net [11]              *)
-     /\ wire_of c 4 = [11]
-     /\ N.of_nat (length (c_wires c)) <> (max_idx (idxs bits) - min_idx (idxs bits) + 1)%N)
+        wire_of c 2 = [10; 12] /\ wire_of c 3 = [11] /\ wire_of c 4 = []
+     /\ N.of_nat (length (c_wires c)) = (max_idx (idxs bits) - min_idx (idxs bits) + 1)%N)
   /\ ~ NoDup (idxs bits).
 Proof.
   cbv zeta. split; [vm_compute; reflexivity|]. split.
   - intros c H. vm_compute in H. inversion H; subst. vm_compute.
-    repeat split; discriminate.
+    repeat split; reflexivity.
   - intros H. inversion H as [|? ? Hnot _]; subst. apply Hnot. simpl. auto.
 Qed.
 
@@ -613,6 +646,7 @@ Print Assumptions member_inverse_outer.
 Print Assumptions member_inverse_inner.
 Print Assumptions member_index_inverse.
 Print Assumptions member_inverse.
-Print Assumptions multibit_duplicate_lower_shifts.
+Print Assumptions multibit_duplicate_lower_joins.
+Print Assumptions multibit_assemble_all.
 Print Assumptions multibit_example.
 Print Assumptions member_inner_unwired.
